@@ -66,7 +66,7 @@ class WorldC06(World):
               'read-absent', 'fault-did-not-fire', 'clock-jump-before-write', 'same-model-written-twice',
               'dimensionless-activation', 'gibbs-activation', 'eight-conditions', 'custom-delimiters',
               'mole-fraction-missing-species', 'EA-gas', 'EA-surface', 'reactants-gas-products-surface',
-              'equal-but-distinct-site-objects', 'barrier-anchored-in-species', 'same-length-variant-mechanism', 'EA-pressure-series-at-one-T', 'sticking-coefficient-zero')
+              'equal-but-distinct-site-objects', 'barrier-anchored-in-species', 'same-length-variant-mechanism', 'prefactor-anchored-in-constants', 'EA-pressure-series-at-one-T', 'sticking-coefficient-zero')
     REAL = ('pmutt.io.chemkin writers and read_reactions', 'pmutt.reaction.ChemkinReaction / Reactions', 'pmutt.chemkin.CatSite',
             'pmutt.empirical.nasa.Nasa', 'pmutt.io._get_file_timestamp')
     SIMULATED = ('disk: SimFS (open/write/close errors, ENOSPC after k characters, crash at four points, read errors)',
@@ -372,11 +372,50 @@ class WorldC06(World):
         else:
             inc = o['act_method_name'] not in ('get_GoRT_act', 'get_G_act', 'get_delta_GoRT', 'get_delta_G')
             A = rxn.get_A(include_entropy=inc, sden_operation=o.get('sden_operation') if surf else None, T=T)
+            self._anchor_A(twin, r, float(A), inc, o.get('sden_operation') if surf else None)
             meth = getattr(rxn, o['act_method_name'])
         from pmutt import _force_pass_arguments
         Ea = _force_pass_arguments(meth, T=T, units=act_unit)
         self._anchor_barrier(twin, r, meth.__name__, float(Ea), {'T': T}, act_unit)
         return float(A), float(r['beta']), float(Ea)
+
+    def _anchor_A(self, twin, r, got, include_entropy, sden_operation):
+        """Without an activation entropy (no transition state, or a Gibbs-type barrier that already holds it) the
+        pre-exponential factor is kB/h divided by the effective site density to the power (surface reactants - 1), with the
+        library's own constants table as the source of kB and h."""
+        if r['ts'] and include_entropy:
+            return
+        from pmutt import constants as c
+        md = None
+        for m_ in self.models.values():
+            if any(r is x for x in m_['reactions']):
+                md = m_
+        if md is None:
+            return
+        by = {d['name']: d for d in md['species']}
+        dens, n_surf = [], 0
+        for n, nu in r['reactants']:
+            d = by[n]
+            if d['site'] is None:
+                continue
+            site = md['sites'][d['site']]
+            if n == site['bulk']:
+                continue
+            dens.extend([site['site_density']] * int(nu))
+            if d['phase'] == 'S':
+                n_surf += nu
+        want = c.kb('J/K') / c.h('J s')
+        if not all(by[n]['phase'] == 'G' for n, _ in r['reactants']):
+            if not dens:
+                return
+            eff = {'min': min, 'max': max, 'sum': sum, 'mean': lambda v: sum(v) / len(v)}.get(sden_operation or 'sum')
+            if eff is None:
+                return
+            want = want / eff(dens) ** (n_surf - 1)
+        self.ctx.probe('prefactor-anchored-in-constants')
+        if abs(got - want) > 1e-10 * abs(want):
+            raise Violation('number-equals-model', 'reaction %s: get_A gives %r; kB/h / (effective site density)^(n_surf-1) '
+                            'from the constants table and the sites = %r' % (equation(r, '+', '=', '.0f'), got, want))
 
     def _anchor_barrier(self, twin, r, meth_name, got, cond, unit):
         """"The value the model gives" is anchored in the species: for the enthalpy and Gibbs barriers of a Chemkin
